@@ -1,9 +1,10 @@
 // Package inproc is the in-process half of the C09 driver.  A three line main package written
 // into the scratch module imports ONE hand-written design package (blank import, as the goa
 // command line does) and calls Main: the design is evaluated once and the real
-// generator.Generate runs `rounds` times over the same output directory, the directory being
-// emptied between rounds the way the goa command line empties it (sub-directories of gen/) plus
-// the example files.  After every round the sha256 of every file is printed as one JSON line.
+// generator.Generate runs `rounds` times over the same output directory (gen, then example, each
+// round); before every "gen" the sub-directories of gen/ are removed exactly as the goa command line
+// removes them (nothing else is).  After every Generate the sha256 and mtime of every file are
+// printed as one JSON line.
 // Passing `--cmd=$ goa gen <pkg>` makes the headers of the generated files identical to those the
 // command line produces, so the trees are comparable byte for byte with the CLI runs.
 package inproc
@@ -24,11 +25,16 @@ import (
 )
 
 type round struct {
-	Ev     string            `json:"ev"`
-	Round  int               `json:"round"`
-	Cmd    string            `json:"cmd"`
-	Listed []string          `json:"listed"`
-	Files  map[string]string `json:"files"`
+	Ev     string           `json:"ev"`
+	Round  int              `json:"round"`
+	Cmd    string           `json:"cmd"`
+	Listed []string         `json:"listed"`
+	Files  map[string]entry `json:"files"`
+}
+
+type entry struct {
+	Sha   string `json:"sha"`
+	Mtime int64  `json:"mtime"`
 }
 
 func die(format string, a ...any) {
@@ -41,7 +47,7 @@ func Main() {
 	out := flag.String("out", "", "output directory inside the module")
 	rounds := flag.Int("rounds", 2, "number of generations")
 	cmds := flag.String("cmds", "gen", "gen | example (the header names one command, as the CLI does)")
-	skip := flag.String("skip", "go.mod,go.sum,designs,cmdinproc", "top level entries that are not output")
+	skip := flag.String("skip", "go.mod,go.sum,cmdinproc", "top level entries that are not output")
 	_ = flag.String("cmd", "", "command line shown in the generated headers (read by goa itself)")
 	flag.Parse()
 	if *out == "" {
@@ -57,11 +63,22 @@ func Main() {
 	enc := json.NewEncoder(os.Stdout)
 	for r := 1; r <= *rounds; r++ {
 		for _, c := range strings.Split(*cmds, ",") {
+			if c == "gen" {
+				// cmd/goa/gen.go cleanupDirs + the RemoveAll calls of the temporary main
+				ents, _ := os.ReadDir(filepath.Join(*out, "gen"))
+				for _, e := range ents {
+					if e.IsDir() {
+						if err := os.RemoveAll(filepath.Join(*out, "gen", e.Name())); err != nil {
+							die("remove: %v", err)
+						}
+					}
+				}
+			}
 			listed, err := generator.Generate(*out, c)
 			if err != nil {
 				die("round %d %s: %v", r, c, err)
 			}
-			files := map[string]string{}
+			files := map[string]entry{}
 			err = filepath.WalkDir(*out, func(p string, d fs.DirEntry, err error) error {
 				if err != nil {
 					return err
@@ -81,8 +98,12 @@ func Main() {
 				if err != nil {
 					return err
 				}
+				info, err := d.Info()
+				if err != nil {
+					return err
+				}
 				h := sha256.Sum256(b)
-				files[filepath.ToSlash(rel)] = hex.EncodeToString(h[:])
+				files[filepath.ToSlash(rel)] = entry{Sha: hex.EncodeToString(h[:]), Mtime: info.ModTime().UnixNano()}
 				return nil
 			})
 			if err != nil {
@@ -90,22 +111,6 @@ func Main() {
 			}
 			if err := enc.Encode(round{Ev: "round", Round: r, Cmd: c, Listed: listed, Files: files}); err != nil {
 				die("encode: %v", err)
-			}
-		}
-		if r == *rounds {
-			break
-		}
-		// empty the output like a user starting over: everything that is not skipped goes
-		ents, err := os.ReadDir(*out)
-		if err != nil {
-			die("readdir: %v", err)
-		}
-		for _, e := range ents {
-			if skipped[e.Name()] {
-				continue
-			}
-			if err := os.RemoveAll(filepath.Join(*out, e.Name())); err != nil {
-				die("remove: %v", err)
 			}
 		}
 	}
